@@ -328,7 +328,7 @@ func C19() *engine.Check {
 			mk("ciphertext-modifications", "ciphertext-mods", "every single-bit flip of the stored value (nonce, tag and body regions), every truncation length and a 1-byte extension at either end must make decryption fail; non-trivial = all", modLens),
 			c19TokenSub(),
 			c19SeqSub(),
-			c19ConcSub(),
+			c19ConcSub(), concRaceSub("C19"),
 		},
 		Assumptions: []string{
 			"semantic security of NaCl secretbox (XSalsa20-Poly1305) is assumed, not checked",
